@@ -90,7 +90,7 @@ def _runtime(layout, ks):
     kmax = G.case.get("kmax", 3)
     nmany = sum(1 for m, _ in layout if m)
     for k in ks[:nmany]:
-        if k > kmax:
+        if k < 0 or k > kmax:
             return None
     rt: List[int] = []
     vi = 0
@@ -112,7 +112,6 @@ def _ret(ret) -> Value:
 
 def h_getitem_int(key: int, k0: int, k1: int, k2: int) -> bool:
     """
-    pre: 0 <= k0 <= 3 and 0 <= k1 <= 3 and 0 <= k2 <= 3
     post: _
     """
     if excluded(key=key, k0=k0, k1=k1, k2=k2):
@@ -137,8 +136,6 @@ def h_getitem_int(key: int, k0: int, k1: int, k2: int) -> bool:
 
 def h_getitem_slice(a: Optional[int], b: Optional[int], k0: int, k1: int, k2: int) -> bool:
     """
-    pre: (a is None or -8 <= a <= 8) and (b is None or -8 <= b <= 8)
-    pre: 0 <= k0 <= 3 and 0 <= k1 <= 3 and 0 <= k2 <= 3
     post: _
     """
     if excluded(a=a, b=b, k0=k0, k1=k1, k2=k2):
@@ -207,7 +204,6 @@ def _py_unpack(rt, target_length, post):
 
 def h_unpack(k0: int, k1: int, k2: int) -> bool:
     """
-    pre: 0 <= k0 <= 3 and 0 <= k1 <= 3 and 0 <= k2 <= 3
     post: _
     """
     if excluded(k0=k0, k1=k1, k2=k2):
@@ -267,7 +263,6 @@ def h_unpack(k0: int, k1: int, k2: int) -> bool:
 
 def h_len(k0: int, k1: int, k2: int) -> bool:
     """
-    pre: 0 <= k0 <= 3 and 0 <= k1 <= 3 and 0 <= k2 <= 3
     post: _
     """
     data = G.case
@@ -331,23 +326,21 @@ def cases(tier: str, seed: int) -> List[Case]:
     out: List[Case] = []
     quick = tier == "quick"
     maxlen = 4 if quick else 5
-    steps = [None] if quick else [None, 1, -1, 2, -2]
+    steps = [None, -1] if quick else [None, 1, -1, 2, -2]
     for typ in ("tuple", "list"):
         for layout in _layouts(maxlen):
             nm = f"{typ}:{_lname(layout)}"
             nmany = sum(1 for m, _ in layout if m)
             kmax = _kmax(layout, tier)
-            if quick and len(layout) == 4 and (nmany > 1 or typ == "list"):
-                continue  # 4-member layouts: one variadic member, tuple only, in the quick tier
             data = {"typ": typ, "layout": layout, "kmax": kmax}
             t = ((40 if len(layout) < 4 else 100) if nmany <= 1 else 150) if quick else (120 if nmany <= 1 else 900)
             if layout:
                 out.append(Case("h_getitem_int", f"gi:{nm}", data, timeout=t))
                 maxn = (len(layout) - nmany) + kmax * nmany
                 for st in steps:
-                    if quick and (len(layout) > 2 or nmany > 1):
+                    if quick and (len(layout) > 3 or nmany > 1 or (st is not None and nmany > 0)):
                         continue
-                    if not quick and len(layout) > 3:
+                    if not quick and len(layout) > 4:
                         continue
                     d2 = dict(data, step=st, lim=min(8, maxn + 1))
                     out.append(Case("h_getitem_slice", f"gs:{nm}:step{st}", d2, timeout=60 if quick else 900))
@@ -371,7 +364,7 @@ def cases(tier: str, seed: int) -> List[Case]:
                         continue
                     data = {"typ": typ, "layout": layout, "target_length": tl, "post": post, "kmax": kmax}
                     out.append(Case("h_unpack", f"un:{typ}:{_lname(layout)}:{tl}:{'-' if post is None else post}", data, timeout=30 if quick else 90))
-    for n in ((1, 2) if quick else (1, 2, 3)):
+    for n in (1, 2, 3):
         for flags in itertools.product([(1, 1), (0, 1), (0, 0)], repeat=n):
             if not any(r or p for r, p in flags):
                 continue  # no key is present at run time: no obligation
